@@ -6,8 +6,6 @@ From PW.proofs Require Import P_vec P_mat P_nplist P_affine.
 Import ListNotations.
 Local Open Scope R_scope.
 
-(* proper rotation: R R^T = I and det R = +1 *)
-Definition proper3 (r : mat3 R) : Prop := orthogonal3 r /\ m3det ROps r = 1.
 
 Lemma m3transpose_mul a b : m3transpose (m3mul ROps a b) = m3mul ROps (m3transpose b) (m3transpose a).
 Proof. dm3 a; dm3 b; mat3_eq; ring. Qed.
@@ -140,7 +138,6 @@ Proof. reflexivity. Qed.
 Lemma vdot_vdivs_l a n b : n <> 0 -> vdot ROps (vdivs ROps a n) b = vdot ROps a b / n.
 Proof. intros H. vunf. field. exact H. Qed.
 
-Definition collinear (a b : vec3 R) : Prop := vcross ROps a b = V3 0 0 0.
 
 (* the Gram-Schmidt frame the code builds *)
 Definition gs_y (up : vec3 R) : vec3 R := vnormalize ROps up.
